@@ -3,6 +3,8 @@ import _ledgerquery as lq
 
 
 def run(ctx):
+    if ctx.replay_in:
+        lq.replay_mode(ctx)
     try:
         lq.standard(ctx, "C42", ("LedgerQuery_C42.cfg", "LedgerQuery_C42t.cfg"), ["Submit:ok", "PreExec", "Restart"],
                     {"unchanged", "views", "history"},
